@@ -317,6 +317,12 @@ def pipeline(x, upto="sim"):
     comp_before = list(comp)
     impl = comp_sim.run_impl(proc, comp)
     unchanged("compiled program", comp_before, list(comp))
+    # the same hardware object used again: for an unrelated program ending in a stall error, then for this program again
+    # ("repeated calls in one process ... return structurally equal results")
+    from program_defs import HwInstruction
+    reused = comp_sim.run_impl(proc, comp, history=[comp, [HwInstruction([], "R0", "no such capability")] + list(comp)])
+    if reused != impl:
+        res["reused_spec_differs"] = True
     unchanged("processor (after simulate)", res["proc_exact"], comp_sim.proc_json(proc))
     if "table" in impl:
         impl["table"] = [sorted([u, sorted(l)] for u, l in row) for row in impl["table"]]
@@ -501,6 +507,8 @@ def evaluate(x, do_cli=True) -> dict:
         o20 = "the description / instruction set / program passed in was modified by the call"
     if o20 is None and base.get("touched"):
         o20 = "a call modified an object passed in: " + ", ".join(base["touched"])
+    if o20 is None and base.get("reused_spec_differs"):
+        o20 = "simulating again with the same HwSpec object (after other simulations on it) returned a different result"
     again = pipeline(x)
     if o20 is None and c20_view(again) != c20_view(base):
         o20 = "a repeated call in the same process returned a different result"
